@@ -420,6 +420,21 @@ def selftest():
         if label != "uf-rule":
             ok, detail = validate(t, x, got, sd)
             out.append((f"diff:{label} agrees with sympy ({detail})", ok))
+    # cross_equal(a, b) implies a == b, closes a typical quotient identity, and does not hide a division by zero
+    a, b = (x / s) * (s * y), x * y
+    Fm = cross_equal(a, b)
+    sol = z3.Solver()
+    sol.add(Fm, a != b)
+    out.append(("diff:cross_equal implies equality", sol.check() == z3.unsat))
+    sol = z3.Solver()
+    sol.add(s > 0, z3.Not(Fm))
+    out.append(("diff:cross_equal closes (x/s)*(s*y) == x*y for s > 0", sol.check() == z3.unsat))
+    sol = z3.Solver()
+    sol.add(s == 0, cross_equal(x / (y / s), (x * s) / y))
+    out.append(("diff:cross_equal requires inner divisors to be non-zero", sol.check() == z3.unsat))
+    sol = z3.Solver()
+    sol.add(x > 0, y > 0, cross_equal(x / y + 1, (x + 2 * y) / y))
+    out.append(("diff:cross_equal rejects a wrong identity", sol.check() == z3.unsat))
     # a wrong derivative must be rejected by validate (the validator is not vacuous)
     ok, _ = validate(x * x * y, x, x * y, {})
     out.append(("diff:validator rejects a wrong derivative", not ok))
